@@ -35,7 +35,7 @@ def _reduced(prop, sh):
     return True
 
 
-NAMED = ["sort_many_rows", "unique_many_rows", "rslice_huge_ends", "rslice_sentinel_end", "reduce_many_rows", "index_many_rows"]
+NAMED = ["sort_many_rows", "unique_many_rows", "rslice_huge_ends", "rslice_sentinel_end", "reduce_many_rows", "index_many_rows", "colslice_huge_components"]
 
 
 def _named(name):
@@ -57,6 +57,19 @@ def _named(name):
     if name == "index_many_rows":
         b = big()
         return [b[49999].tolist(), b[[36000, 10]].tolist(), b[35999:36001, ::-1].tolist(), b[np.int64(20000), 1].item()]
+    if name == "colslice_huge_components":
+        # column-slice starts / stops / steps at and beyond the 32-bit range (they act like the row bounds): 9 steps x 5 starts x 4 stops,
+        # on a fresh array and on a pending selection, and compared with plain list slicing as well
+        rows = [[1, 2, 3], [4, 5], [], [6, 7, 8, 9]]
+        out = []
+        for st in (2 ** 31 - 1, 2 ** 31, 2 ** 40, -2 ** 31, -2 ** 31 - 1, -2 ** 40, 2 ** 31 - 2, 3, -2):
+            for a in (None, 1, -2 ** 40, 2 ** 40, -1):
+                for b in (None, 2 ** 40, -2 ** 40, 2):
+                    s = slice(a, b, st)
+                    got = RaggedArray(rows)[:, s].tolist()
+                    assert got == [r[s] for r in rows], (s, got)
+                    out.append((got, RaggedArray(rows)[1:, s][::-1][:, ::-1].tolist()))
+        return out
     if name == "rslice_huge_ends":
         return ragged_slice(small(), np.array([0, 1, 0, 0, 1, 0]), np.full(6, 2 ** 40)).tolist()
     if name == "rslice_sentinel_end":
